@@ -24,6 +24,7 @@ type Entry struct {
 	Mode    string // "file", "symlink", "dir", "device", "pipe"
 	Content []byte
 	Size    int64 // reported size; -1 = len(Content)
+	Read    string `json:",omitempty"` // how Open's reader delivers the content: "" at once; "eofdata" the last bytes together with io.EOF; "byte" one byte per call; "chunk" 7 bytes per call, the last with io.EOF
 }
 
 func (e Entry) ReportedSize() int64 {
@@ -95,13 +96,13 @@ func (c ListCase) Post124() bool {
 }
 
 var dirPool = []string{"", "", "", "a/", "a/b/", "a/b/c/", "vendor/", "vendor/x/", "vendor/x/y/", "pkg/vendor/", "pkg/vendor/z/", "pkg/vendor/z/w/", "vendor/vendor/", "sub/", "sub/deep/", "sub/vendor/", "A/", "a/B/", "Sub/", "é/", "ﬀ/", "ff/", "K/", "k/", "\u212a/", "\u212a/sub/", "\u017f/", "s/", "\u212b/", "\u00e5/", "a/\u212a/", "a/k/", "internal/", ".git/", "cmd/tool/", "testdata/", "con/", "a.b/"}
-var filePool = []string{"x.go", "y.go", "go.mod", "go.mod", "GO.MOD", "Go.Mod", "go.MOD", "LICENSE", "license", "License", "README.md", "modules.txt", "vendor.go", "vendor", ".hg_archival.txt", "aux.txt", "NUL", "com1.go", "a~1", "é.go", "É.go", "X.GO", "x.GO", "ß", "ss", "\u212a", "k", "K", "\u017f", "s", "\u212b", "\u00e5", "\u1e9e", "straße.go", "STRASSE.go", "σ.txt", "ς.txt", "Σ.txt", "a b.txt", "a\tb", "trailing.", ".hidden", "..", "...", "f|g", "f?g", "f*g", "weird[1].go", "go.mod.bak", "x", "z"}
+var filePool = []string{"x.go", "y.go", "go.mod", "go.mod", "GO.MOD", "Go.Mod", "go.MOD", "LICENSE", "license", "License", "README.md", "modules.txt", "vendor.go", "vendor", ".hg_archival.txt", "aux.txt", "NUL", "com1.go", "a~1", "é.go", "É.go", "X.GO", "x.GO", "ß", "ss", "\u212a", "k", "K", "\u017f", "s", "\u212b", "\u00e5", "\u1e9e", "straße.go", "STRASSE.go", "σ.txt", "ς.txt", "Σ.txt", "a b.txt", "a\tb", "trailing.", ".hidden", "..", "...", "f|g", "f?g", "f*g", "weird[1].go", "go.mod.bak", "x", "z", ".git", ".hg", ".svn", ".bzr", ".gitignore", "cargo.mod", "algo.mod", "x.GO.MOD", "notgo.mod", "go.mod.go.mod", "LICENSE.txt", "MYLICENSE"}
 
 // The "mild" pools only contain names that are valid and do not collide with each other under
 // case folding, so that lists built from them usually pass the check while still exercising
 // the omission rules (vendor variants, nested modules, VCS files, irregular modes).
 var mildDirPool = []string{"", "", "", "a/", "a/b/", "a/b/c/", "vendor/", "vendor/x/", "vendor/x/y/", "pkg/vendor/", "pkg/vendor/z/", "pkg/vendor/z/w/", "vendor/vendor/", "sub/", "sub/deep/", "sub/vendor/", "sub/vendor/q/", "internal/", "cmd/tool/", "é/", "testdata/", ".git/", "cmd/generate/", "cmd/gen/", "docs/", "doc/", "doc/s/", "internal/xy/", "internal/x/"}
-var mildFilePool = []string{"x.go", "y.go", "go.mod", "LICENSE", "README.md", "modules.txt", "vendor.go", "vendor", ".hg_archival.txt", "é.go", "a b.txt", ".hidden", "weird[1].go", "z", "go.mod.bak", "main_test.go"}
+var mildFilePool = []string{"x.go", "y.go", "go.mod", "LICENSE", "README.md", "modules.txt", "vendor.go", "vendor", ".hg_archival.txt", "é.go", "a b.txt", ".hidden", "weird[1].go", "z", "go.mod.bak", "main_test.go", ".git", ".hg", ".gitignore", "cargo.mod", "algo.mod", "MYLICENSE"}
 
 var uncleanPool = []string{"a//b.go", "./x.go", "a/../b.go", "a/", "/abs/x.go", "", ".", "a/./b", "../up.go", "//", "a/b/..", "/"}
 var modIDs = [][2]string{
@@ -148,6 +149,9 @@ func GenList(t *rapid.T, hostile bool) ListCase {
 	for i := 0; i < n; i++ {
 		var e Entry
 		e.Mode, e.Size = "file", -1
+		if gen.Chance(t, 12, "oddreader") {
+			e.Read = []string{"eofdata", "byte", "chunk"}[gen.Uniform(t, 3, "readhow")]
+		}
 		switch k := rapid.IntRange(0, 99).Draw(t, "nk"); {
 		case hostile && !mild && k < 6:
 			e.Name = pick(t, uncleanPool, "unclean")
@@ -199,6 +203,9 @@ func GenList(t *rapid.T, hostile bool) ListCase {
 	}
 	if c.GoMod >= 0 {
 		gm := Entry{Name: "go.mod", Mode: "file", Content: []byte(GoModKinds[c.GoMod].Content), Size: -1}
+		if gen.Chance(t, 10, "gomododdreader") {
+			gm.Read = []string{"eofdata", "byte", "chunk"}[gen.Uniform(t, 3, "gomodreadhow")]
+		}
 		if hostile && gen.Chance(t, 4, "gomodsymlink") {
 			gm.Mode, gm.Content = "symlink", nil
 		}
@@ -226,7 +233,13 @@ func GenList(t *rapid.T, hostile bool) ListCase {
 	}
 	// lying sizes: only in ways that make the list fail the check (nothing large is ever written)
 	if hostile && gen.Chance(t, 8, "bigsizes") {
-		switch rapid.IntRange(0, 7).Draw(t, "bigkind") {
+		switch rapid.IntRange(0, 10).Draw(t, "bigkind") {
+		case 10: // an oversized file that merely shares the name of a limited one, below the root
+			c.Entries = append(c.Entries, Entry{Name: "third_party/lib/LICENSE", Mode: "file", Size: zipref.MaxLICENSE + 1}, Entry{Name: "docs/LICENSE.txt", Mode: "file", Size: zipref.MaxLICENSE + 1})
+		case 8: // sizes whose sum wraps a signed 64-bit total
+			c.Entries = append(c.Entries, Entry{Name: "wrap1.bin", Mode: "file", Size: 1 << 62}, Entry{Name: "wrap2.bin", Mode: "file", Size: 1 << 62})
+		case 9:
+			c.Entries = append(c.Entries, Entry{Name: "max.bin", Mode: "file", Size: 1<<63 - 1}, Entry{Name: "one.bin", Mode: "file", Size: 1 << 20}, Entry{Name: "two.bin", Mode: "file", Size: 1<<63 - 1})
 		case 4: // exactly at the limits: still valid
 			c.Entries = append(c.Entries, Entry{Name: "LICENSE", Mode: "file", Size: zipref.MaxLICENSE})
 		case 5:
@@ -297,7 +310,37 @@ func (f File) Open() (io.ReadCloser, error) {
 	if f.E.Mode != "file" {
 		return nil, errors.New("not a regular file")
 	}
+	if f.E.Read != "" {
+		return io.NopCloser(&oddReader{data: f.E.Content, how: f.E.Read}), nil
+	}
 	return io.NopCloser(bytes.NewReader(f.E.Content)), nil
+}
+
+// oddReader delivers data in the ways the io.Reader contract allows and bytes.Reader never uses.
+type oddReader struct {
+	data []byte
+	how  string
+}
+
+func (r *oddReader) Read(p []byte) (int, error) {
+	if len(p) == 0 {
+		return 0, nil
+	}
+	max := len(p)
+	switch r.how {
+	case "byte":
+		max = 1
+	case "chunk":
+		if max > 7 {
+			max = 7
+		}
+	}
+	n := copy(p[:max], r.data)
+	r.data = r.data[n:]
+	if len(r.data) == 0 && (r.how == "eofdata" || r.how == "chunk" || n == 0) {
+		return n, io.EOF
+	}
+	return n, nil
 }
 
 type info struct{ e Entry }
